@@ -72,7 +72,7 @@ def byte_parts(p, value):
         if depth > 6:
             return None
         if isinstance(e, ast.Call) and u(e.func) in ("bytes", "bytearray") and len(e.args) == 1 and not e.keywords:
-            if isinstance(e.args[0], ast.List):       # bytes([a, b])
+            if isinstance(e.args[0], (ast.List, ast.Tuple)) and not any(isinstance(x, ast.Starred) for x in e.args[0].elts):       # bytes([a, b])
                 return [("byte", u(x)) for x in e.args[0].elts]
             return parts(e.args[0], depth + 1)
         if isinstance(e, ast.BinOp) and isinstance(e.op, ast.Add):
